@@ -4,6 +4,7 @@ import IncanModel.Driver.C07
 import IncanModel.Driver.C08
 import IncanModel.Driver.C09
 import IncanModel.Driver.C10
+import IncanModel.Driver.C14
 import IncanModel.Driver.C15
 import IncanModel.Driver.C18
 import IncanModel.Driver.C19
@@ -18,6 +19,7 @@ def dispatch (line : String) : String :=
   | "c08" :: rest => handleC08 rest
   | "c09" :: rest => handleC09 rest
   | "c10" :: rest => handleC10 rest
+  | "c14" :: rest => handleC14 rest
   | "c15" :: rest => handleC15 rest
   | "c18" :: rest => handleC18 rest
   | "c19" :: rest => handleC19 rest
